@@ -557,7 +557,8 @@ class Tiny:
                     r_ = self.default_call(f, args)
                 # the rule's oracle does not know the callee (it gave the conventional opaque answer) and the callee is a private helper function
                 # of the module the evaluated code lives in: the helper is evaluated in place, like a private method with `inline_self`
-                if isinstance(e.func, ast.Name) and e.func.id.startswith("_") and not e.func.id.startswith("__") and isinstance(r_, Sym) and r_.name == f"<{f}>":
+                if isinstance(e.func, ast.Name) and ((e.func.id.startswith("_") and not e.func.id.startswith("__")) or e.func.id in getattr(self, "inline_module_funcs", ())) \
+                        and isinstance(r_, Sym) and r_.name == f"<{f}>":
                     node = self._module_func(e.func.id)
                     if node is not None:
                         return self._call_module_func(node, args, kwargs)
@@ -600,6 +601,7 @@ class Tiny:
         sub = Tiny(env, calls=self.calls, default_call=self.default_call, model_types=self.model_types, opaque_globals=self.opaque_globals, inline_self=None,
                    model_strings=self.model_strings, local_defs=True)
         sub.module = self.module
+        sub.inline_module_funcs = getattr(self, "inline_module_funcs", ())
         sub._depth = depth + 1
         sub.trace = self.trace
         r = sub.run([x for x in node.body if not (isinstance(x, ast.Expr) and isinstance(x.value, ast.Constant))])
